@@ -4,7 +4,7 @@ simulator must observe the same sequence of (time, inputs)."""
 import collections, copy, json, os, random, subprocess, sys, tempfile, time
 from .. import common, sched_check, monitors, gen, simlib, tracelib
 
-KINDS = {'inputs', 'timemismatch', 'notdone', 'quiesce_enabled'}
+KINDS = {'inputs', 'mirror', 'timemismatch', 'notdone', 'quiesce_enabled'}
 
 
 def observations(run):
@@ -86,6 +86,7 @@ def run(out, info, tier, seed):
     for k in range(n):
         crng = random.Random(seed * 1000003 + k)
         case = gen.gen_fanin_case(crng) if k % 6 == 1 else gen.gen_parallel_case(crng) if k % 3 == 2 else gen.gen_case(crng, groups=True, clean=0.8, maxn=4)
+        if k % 5 == 4: case['mirror'] = crng.choice([1, 2])       # several entities per simulator, connected index by index
         variants = []
         for lazy in (True, False):
             for cache in (True, False):
